@@ -607,6 +607,19 @@ class World:
             if not gone:
                 gone = [nb(IDN[op[1]] + '/KEY/%99%98')]       # (or one that was removed from another process)
             return True, lambda: kc[ib].set_default_key(enc.Name.from_bytes(gone[0]))
+        if kind == 'defcert-gone':
+            # the application names, as default certificate of a key, a certificate that is not (or no longer) one of that key's: a
+            # sibling key's certificate, a certificate deleted earlier, or one that never existed.  Nothing of that name exists under
+            # the key, so nothing changes (refusing with KeyError is as good)
+            ib = nb(IDN[op[1]])
+            k = self.key_of(op[1], op[2])
+            if k is None or not self.ref[ib]['keys'][k]['certs']:
+                return False, None
+            other = self.key_of(op[1], 1 - op[2])
+            cands = list(self.ref[ib]['keys'][other]['certs']) if other is not None else []
+            cands += [c for c in self.deleted_certs.get(k, []) if c not in self.ref[ib]['keys'][k]['certs']]
+            cands.append(nb(enc.Name.to_str(enc.Name.from_bytes(k)) + '/nobody/v=1'))
+            return True, lambda: self.kc[ib][k].set_default_cert(enc.Name.from_bytes(cands[0]))
         if kind == 'import-dup':
             # a certificate that is already filed under its own key is imported once more under another key of the identity: whatever
             # the store makes of that, the key that owns the certificate keeps it
@@ -715,7 +728,7 @@ class World:
             try:
                 call()
             except Exception:  # noqa
-                if op[0] not in ('defkey-gone', 'import-dup') and not dup_key:
+                if op[0] not in ('defkey-gone', 'defcert-gone', 'import-dup') and not dup_key:
                     raise
                 # refusing is fine; the state is compared below all the same
             if dup_key:
@@ -810,7 +823,7 @@ def alphabet(tier):
            ('delcert', 'a', 0, 0), ('delcert', 'a', 0, 1), ('delcert2', 'a', 0, 0), ('delcert', 'b', 0, 0),
            ('delkey', 'a', 0), ('delkey', 'a', 1), ('delkey2', 'a', 0), ('delkey', 'b', 0),
            ('delid', 'a'), ('delid', 'b'), ('signL', 'a', 0), ('signL', 'a', 1), ('signL', 'b', 0), ('reopen',),
-           ('defkey-gone', 'a'), ('import-dup', 'a'), ('newkey-id', 'a')]
+           ('defkey-gone', 'a'), ('import-dup', 'a'), ('newkey-id', 'a'), ('defcert-gone', 'a', 0), ('defcert-gone', 'a', 1)]
     return ops
 
 
